@@ -48,6 +48,13 @@ Theorem am_letters_inverse :
 Proof. exact AmList.am_letters_inverse_lemma. Qed.
 Print Assumptions am_letters_inverse.
 
+(* ... and one unsupported entry anywhere in the list makes the whole conversion an IndexError (no partial string) *)
+Theorem am_list_outside_rejected :
+  forall hij am, Exists (fun l => (l < 0 \/ Z.of_nat (String.length (amchar_map hij)) <= l)%Z) am ->
+    amint_to_char am hij false = inl EIndex.
+Proof. exact AmList.am_list_outside_lemma. Qed.
+Print Assumptions am_list_outside_rejected.
+
 Example am_list_demo :
   amint_to_char [0; 1; 2]%Z false false = inr "spd" /\ amchar_to_int "SPD" false = inr [0; 1; 2]%Z /\
   amint_to_char [7]%Z false false = inr "k" /\ amint_to_char [7]%Z true false = inr "j".
